@@ -427,4 +427,69 @@ theorem install_cases (E : Ext) (due : Bool) (s db : Bytes) (wals : List Bytes)
   refine ⟨dbh, walhs, st, files, by omega, by omega, ?_, hw, hf, hvf⟩
   rw [hd]; cases hdr; simp_all
 
+
+theorem u8' (a : Nat) (h : a < 256) : (UInt8.ofNat a).toNat = a := by
+  simp [UInt8.toNat_ofNat', Nat.mod_eq_of_lt h]
+
+theorem be32_enc32_append' (n : Nat) (x : Bytes) (h : n < 4294967296) : be32 (enc32 n ++ x) = n := by
+  simp only [enc32, List.cons_append, List.nil_append, be32]
+  rw [u8' _ (Nat.mod_lt _ (by decide)), u8' _ (Nat.mod_lt _ (by decide)), u8' _ (Nat.mod_lt _ (by decide)),
+    u8' _ (Nat.mod_lt _ (by decide))]
+  omega
+
+/-- the header entry the streamer writes for a file -/
+def hdrFor (E : Ext) (f : Bytes) : FileHdr := ⟨f.length, E.crc f⟩
+
+theorem sizesMatch_hdrFor (E : Ext) : ∀ ws : List Bytes, SizesMatch ws (ws.map (hdrFor E)) := by
+  intro ws
+  induction ws with
+  | nil => exact .nil
+  | cons w t ih => exact .cons rfl ih
+
+theorem crc_hdrFor (E : Ext) : ∀ (ws : List Bytes), ∀ p ∈ ws.zip (ws.map (hdrFor E)), E.crc p.1 = p.2.crc := by
+  intro ws
+  induction ws with
+  | nil => intro p hp; simp at hp
+  | cons w t ih =>
+    intro p hp
+    simp only [List.map_cons, List.zip_cons_cons, List.mem_cons] at hp
+    rcases hp with rfl | hp
+    · rfl
+    · exact ih p hp
+
+/-- a framed stream whose header announces exactly the sizes and CRCs of the files restores -/
+theorem frame_restores_gen (E : Ext) (hb db : Bytes) (wals : List Bytes) (dbh : FileHdr) (walhs : List FileHdr)
+    (hl : hb.length < 4294967296)
+    (hd : E.decode hb = some ⟨1, .full (some dbh) walhs⟩)
+    (hsz : db.length = dbh.size) (hcrc : E.crc db = dbh.crc)
+    (hws : SizesMatch wals walhs) (hwc : ∀ p ∈ wals.zip walhs, E.crc p.1 = p.2.crc) :
+    restore E (frame hb (db :: wals)) = .ok db wals := by
+  have hs : frame hb (db :: wals) = enc32 hb.length ++ (hb ++ (db ++ wals.flatten)) := by
+    simp [frame, List.append_assoc]
+  rw [hs]
+  have hn : be32 (enc32 hb.length ++ (hb ++ (db ++ wals.flatten))) = hb.length := be32_enc32_append' _ _ hl
+  have D4 : ∀ (a : Nat) (x : Bytes), (enc32 a ++ x).drop 4 = x := by intros; simp [enc32]
+  have L4 : ∀ (a : Nat), (enc32 a).length = 4 := fun _ => rfl
+  simp only [restore, hn]
+  rw [if_neg (by simp [L4]), if_neg (by simp [L4])]
+  have e1 : ((enc32 hb.length ++ (hb ++ (db ++ wals.flatten))).drop 4).take hb.length = hb := by
+    rw [D4]; simp
+  have e2 : (enc32 hb.length ++ (hb ++ (db ++ wals.flatten))).drop (4 + hb.length) = db ++ wals.flatten := by
+    rw [← List.drop_drop, D4]; simp
+  rw [e1, hd, e2]
+  have t1 : (db ++ wals.flatten).take dbh.size = db := List.take_left' hsz
+  have t2 : (db ++ wals.flatten).drop dbh.size = wals.flatten := List.drop_left' hsz
+  have t3 : ¬ (db ++ wals.flatten).length < dbh.size := by simp; omega
+  have t4 : ¬ E.crc db ≠ dbh.crc := by simp [hcrc]
+  have := restoreWals_complete E walhs wals [] hws hwc
+  simp only [List.append_nil] at this
+  simp only [ne_eq, not_true_eq_false, if_false]
+  rw [if_neg t3, t1, if_neg t4, t2, this]
+  simp
+
+theorem frame_restores (E : Ext) (hb db : Bytes) (wals : List Bytes) (hl : hb.length < 4294967296)
+    (hd : E.decode hb = some ⟨1, .full (some (hdrFor E db)) (wals.map (hdrFor E))⟩) :
+    restore E (frame hb (db :: wals)) = .ok db wals :=
+  frame_restores_gen E hb db wals _ _ hl hd rfl rfl (sizesMatch_hdrFor E wals) (crc_hdrFor E wals)
+
 end RqModel.SnapStream
